@@ -69,7 +69,35 @@ class C01(Prop):
                     if "[" in c and c.endswith("]"):
                         out.append({"stream": "n0eval", "tag": "n0eval", "input": {"s": c[c.index("[") + 1:-1]}})
                 out.append({"stream": "tok", "tag": "tok", "input": {"s": xp}})
+        self._exh = None
+        if tier == "thorough":
+            # exhaustive small scope: every tree with <= 5 nodes (2 keys, 2 leaf values, lists <= 3 items),
+            # dict- and list-rooted, every leaf, every entry point, spelling styles in rotation
+            n_trees = n_cases = 0
+            style = 0
+            for root in ("dict", "list"):
+                for nodes in range(1, 6):
+                    for t in X.all_trees(nodes, root=root):
+                        n_trees += 1
+                        if root == "dict":
+                            out.append({"stream": "enum", "tag": "exh:enum", "input": {"tree": t, "mode": "convert"}})
+                        for path, _v in X.leaf_paths(t):
+                            if not path:
+                                continue
+                            for kind in (0, 1, 2):
+                                style = (style + 1) % 6
+                                xp = X.render(t, path, rng, style=style)
+                                out.append({"stream": "lookup", "tag": "exh:%s:%d" % (root, kind),
+                                            "input": {"tree": t, "mode": "convert", "xpath": xp, "kind": kind,
+                                                      "path": list(path), "expect": "node"}})
+                                n_cases += 1
+            self._exh = {"exhaustive_scopes": ["every tree with <= 5 nodes over keys {a,b}, leaves {1,'x'}, lists <= 3 items, dict- and "
+                                               "list-rooted (%d trees): every leaf x item access/get/first (%d lookups), "
+                                               "spelling styles in rotation" % (n_trees, n_cases)]}
         return out
+
+    def extra_evidence(self):
+        return getattr(self, "_exh", None) or {}
 
     def run_impl(self, case):
         i, st = case["input"], case["stream"]
